@@ -164,6 +164,10 @@ func {{ .RequestEncoder }}(encoder func(*http.Request) goahttp.Encoder) func(*ht
 		{{- if not .PasswordRequired }}
 		if p.{{ .PasswordField }} != nil {
 		{{- end }}
+		if strings.Contains({{ if .UsernamePointer }}*{{ end }}p.{{ .UsernameField }}, ":") {
+			// RFC 7617: the user-id cannot contain a colon, the server splits the credentials at the first one.
+			return goa.InvalidPatternError({{ printf "%q" .UsernameAttr }}, {{ if .UsernamePointer }}*{{ end }}p.{{ .UsernameField }}, "^[^:]*$")
+		}
 		req.SetBasicAuth({{ if .UsernamePointer }}*{{ end }}p.{{ .UsernameField }}, {{ if .PasswordPointer }}*{{ end }}p.{{ .PasswordField }})
 		{{- if not .UsernameRequired }}
 		}
